@@ -1,4 +1,4 @@
 From Coq Require Import Extraction ExtrOcamlBasic.
-From IV Require Import Base.Bytes Model.Lifecycle.
+From IV Require Import Base.Bytes Model.Lifecycle Model.LifecycleAsm.
 Extraction Language OCaml.
-Extraction "c19_model.ml" conv_anchor ldrive loracle rsteps rinit.
+Extraction "c19_model.ml" conv_anchor ldrive loracle rsteps rinit boot_pinned.
